@@ -208,6 +208,33 @@ CHECKS = {
         note="Trusted: as C04. Bounded: values of at most 1 (quick) / 2 (thorough) nesting steps over 12 atoms.",
         technique="TLA+ type-directed deserialization model checked with TLC over all small values x types; replayed into from_value; validated by TLC",
     ),
+    "C17": dict(
+        category="model_checking",
+        text="TLC places every class of UTF-8 byte sequence (valid, overlong, surrogate, out of range, invalid leads, truncated, stray "
+             "continuation) into every syntactic context (symbols, strings, between and next to escapes of both string syntaxes, "
+             "characters, comments, keyword names) under both dialects, lets the reference reader decide (read / rejected / bytes / "
+             "ignored in a comment) and checks that ill-formed input is only ever accepted in a comment or as an Emacs unibyte string. "
+             "The implementation parses each text from slice, stream and (if valid) str: it must agree with that verdict, every str "
+             "reachable from a result is re-validated, and the hook in front of the five unchecked conversions must never see an "
+             "ill-formed buffer - also for seeded random bytes. Output side: all probe values under all 576 printer option sets.",
+        design_ref="DESIGN.md section 6 (C17), section 9",
+        note="Undefined behaviour is not a TLA+ state nor observable in general: approximated by re-validation and by the add-only hook "
+             "(utf8_check) before each from_utf8_unchecked. Trusted: TLC, Text!Utf8Ok, std::str::from_utf8.",
+        technique="TLA+ UTF-8 well-formedness and reference reader as rejection oracle, enumerated with TLC; replayed through all sources with hooks; validated by TLC",
+    ),
+    "C20": dict(
+        category="model_checking",
+        text="A TLA+ model of Number (PosInt / NegInt / Float, chosen by the From conversions) and of the value kinds is checked by TLC "
+             "for coherence (one kind; the integer classes and their accessor ranges; a float is never an integer) over every boundary "
+             "value of the eight integer widths, and emits the expected accessor results and the expected outcome of == against every "
+             "integer primitive. The harness builds each value through From, checks kinds, is_x <=> as_x, payload preservation and == in "
+             "both operand orders and through references against integers of every width, bools, strings and floats; TLC validates the "
+             "recorded accessor results and comparison outcomes against the model.",
+        design_ref="DESIGN.md section 6 (C20), section 3.2",
+        note="Float comparisons are judged by the relation of the property on the logged as_f64 value (rounding is std's `as f64`). "
+             "Interpretation: for f64 only is_f64 => as_f64.is_some().",
+        technique="TLA+ number / kind model checked with TLC; constructor calls and comparison pairs replayed; results validated by TLC",
+    ),
     "C07": dict(
         category="fault_enumeration",
         text="The sink machine of spec/Sink.tla (write_all discipline against a sink that may accept any prefix, return 0, fail or "
